@@ -333,8 +333,7 @@ def build_runner():
     return exe
 
 
-def run_impl(exe, casefile, outfile, env=None, timeout=3000):
-    rc, out, dt = sh([exe, casefile, outfile], env=env, timeout=timeout)
+def _read_out(outfile, offset=0):
     res = {}
     if os.path.exists(outfile):
         for line in open(outfile):
@@ -342,10 +341,68 @@ def run_impl(exe, casefile, outfile, env=None, timeout=3000):
             if line:
                 try:
                     o = json.loads(line)
+                    o["line"] += offset
                     res[o["line"]] = o
                 except Exception:
                     pass
-    return rc, res, out
+    return res
+
+
+def run_impl(exe, casefile, outfile, env=None, timeout=3000, stall=None):
+    """run the harness on a case file.  The harness writes one line per finished case; when no new line appears for `stall`
+    seconds the case being worked on is declared non-terminating (reported as a panic 'no result within ...'), the process is
+    killed and the remaining cases are run in a fresh process (at most 4 times)."""
+    if stall is None:
+        stall = 240 if os.environ.get("VERIF_TIER", "quick") != "thorough" else 1200
+    e = dict(os.environ)
+    e["CARGO_NET_OFFLINE"] = "true"
+    if env:
+        e.update(env)
+    lines = [ln for ln in open(casefile).read().split("\n")]
+    if lines and lines[-1] == "":
+        lines.pop()
+    res, offset, cur_case, cur_out, outs, rc = {}, 0, casefile, outfile, [], 0
+    for attempt in range(5):
+        if os.path.exists(cur_out):
+            os.remove(cur_out)
+        t0 = time.time()
+        p = subprocess.Popen([exe, cur_case, cur_out], env=e, stdout=subprocess.PIPE, stderr=subprocess.STDOUT, text=True)
+        last_size, last_change, hung = -1, time.time(), False
+        while p.poll() is None:
+            time.sleep(0.5)
+            sz = os.path.getsize(cur_out) if os.path.exists(cur_out) else 0
+            if sz != last_size:
+                last_size, last_change = sz, time.time()
+            if time.time() - last_change > stall or time.time() - t0 > timeout:
+                hung = True
+                p.kill()
+                break
+        try:
+            outs.append(p.communicate(timeout=30)[0] or "")
+        except Exception:
+            pass
+        part = _read_out(cur_out, offset)
+        res.update(part)
+        if not hung:
+            rc = rc or (p.returncode or 0)
+            break
+        rc = 124
+        done = [k for k in part if k >= offset]
+        hang_line = (max(done) + 1) if done else offset
+        # blank / comment lines are skipped by the harness: move to the next real case
+        while hang_line < len(lines) and (not lines[hang_line].strip() or lines[hang_line].startswith("#")):
+            hang_line += 1
+        if hang_line >= len(lines):
+            break
+        kind = lines[hang_line].split()[0] if lines[hang_line].split() else "?"
+        res[hang_line] = {"line": hang_line, "kind": kind, "panic": f"no result within {int(stall)} s (non-termination?)", "hang": True}
+        offset = hang_line + 1
+        if offset >= len(lines):
+            break
+        cur_case, cur_out = casefile + f".rest{attempt}", outfile + f".rest{attempt}"
+        with open(cur_case, "w") as f:
+            f.write("\n".join(lines[offset:]) + "\n")
+    return rc, res, "\n".join(outs)
 
 
 def run_model(casefile, timeout=3000):
